@@ -20,6 +20,10 @@ CheckPair(a, b) ==
     /\ BMul(a, b) = BMulDef(a, b)
     /\ (~BLessDef(a, b) => BSub(a, b) = BSubDef(a, b))
     /\ BAddDef(BSubDef(BAddDef(a, b), b), <<>>) = a
+CheckModOps(a, b, m) == LET x == BModDef(a, m)  y == BModDef(b, m)
+                        IN /\ BAddMod(x, y, m) = BAddModDef(x, y, m) /\ BAddMod(x, y, m) = BModDef(BAddDef(x, y), m)
+                           /\ BSubMod(x, y, m) = BSubModDef(x, y, m) /\ BAddModDef(BSubModDef(x, y, m), y, m) = x
+                           /\ BMulMod(x, y, m) = BMulModDef(x, y, m)
 CheckMod(a, m) ==
     /\ BDiv(a, m) = BDivDef(a, m) /\ BMod(a, m) = BModDef(a, m)
     /\ BAddDef(BMulDef(BDivDef(a, m), m), BModDef(a, m)) = a /\ BLessDef(BModDef(a, m), m)
@@ -30,6 +34,7 @@ CheckInv(a, p) == BModDef(a, p) # <<>> =>
 Inv == done =>
     /\ \A a \in Pool, b \in Pool : CheckPair(a, b)
     /\ \A a \in Pool, m \in Mods : CheckMod(a, m)
+    /\ \A a \in {Rand(3, 32), Ones(32), <<>>, <<1>>, Rand(7, 64), Pow2(32)}, b \in {Rand(4, 32), Ones(31), <<>>, <<2>>, Rand(1, 48)}, m \in Mods : CheckModOps(a, b, m)
     /\ \A a \in {Rand(3, 32), Ones(32), <<>>, <<1>>}, e \in {<<>>, <<1>>, <<2>>, Rand(8, 4), Ones(3)}, m \in Mods : CheckPow(a, e, m)
     /\ \A a \in Pool, p \in Primes : CheckInv(a, p)
     /\ \A a \in Pool : BBitsMSB(a) = BBitsMSBDef(a) /\ FromBE(ToBE(a, 70)) = a
